@@ -434,7 +434,9 @@ class HDF5FileSingleton(metaclass=SingleInstancePerFileAttribute):
         self.__keep_open = True
         yield
         self.__keep_open = False
-        self.__close()
+        # The file may not have been opened.
+        if self.__file is not None:
+            self.__close()
 
     def __close(self) -> None:
         """Close the file handle."""
